@@ -268,6 +268,15 @@ func (p *Prog) walk(f *Func, b *cfg.Block, st *pstate, out *[]*Path) {
 				return
 			}
 			s2 := st.clone()
+			if pureTerm(ct) {
+				// first evaluation of a pure loop condition: a fact on both edges (zero iterations / first iteration)
+				for _, fa := range condFacts(ct, false) {
+					s2.addFact(fa, cond)
+				}
+				for _, fa := range condFacts(ct, true) {
+					st.addFact(fa, cond)
+				}
+			}
 			p.walk(f, b.Succs[1], s2, out)
 			p.walk(f, b.Succs[0], st, out)
 			return
@@ -772,7 +781,7 @@ func (s *pstate) decide(t *Term) int {
 		if a == 1 && b == 1 {
 			return 1
 		}
-		return -1
+		return s.decideWhole(t)
 	case "||":
 		a, b := s.decide(t.A[0]), s.decide(t.A[1])
 		if a == 1 || b == 1 {
@@ -781,7 +790,7 @@ func (s *pstate) decide(t *Term) int {
 		if a == 0 && b == 0 {
 			return 0
 		}
-		return -1
+		return s.decideWhole(t)
 	}
 	if t.IsAt("#true") {
 		return 1
@@ -792,6 +801,17 @@ func (s *pstate) decide(t *Term) int {
 	f := normFact(Fact{T: t})
 	if r := decideFact(f, s.facts); r >= 0 {
 		return r
+	}
+	return -1
+}
+
+// decideWhole: a compound condition recorded earlier as one (normalised) fact.
+func (s *pstate) decideWhole(t *Term) int {
+	if s.facts.Has(normFact(Fact{T: t})) {
+		return 1
+	}
+	if s.facts.Has(normFact(Fact{T: t, Neg: true})) {
+		return 0
 	}
 	return -1
 }
@@ -811,6 +831,19 @@ func decideFact(f Fact, facts FactSet) int {
 		return res(false)
 	}
 	t := f.T
+	// values that are never nil / never empty by construction
+	if t.Op == "==" && len(t.A) == 2 && t.A[1].IsAt("#nil") {
+		switch stripConv(t.A[0]).Op {
+		case "make", "lit", "&", "append", "func":
+			return res(false)
+		}
+	}
+	if t.Op == "nonempty" && len(t.A) == 1 {
+		k := stripConv(t.A[0])
+		if strings.HasSuffix(k.Op, "Iterator.Key") && len(k.A) == 1 && (k.A[0].Op == "sdk.KVStorePrefixIterator" || k.A[0].Op == "sdk.KVStoreReversePrefixIterator") {
+			return res(true) // keys returned by a prefix iterator start with the (non-empty) prefix
+		}
+	}
 	if t.Op == "==" && len(t.A) == 2 {
 		a, b := t.A[0], t.A[1]
 		if isConstTerm(a) && isConstTerm(b) {
